@@ -5,6 +5,7 @@ import json
 import multiprocessing
 import numpy as np
 import pathlib
+import shutil
 import tempfile
 import time
 import traceback
@@ -131,6 +132,7 @@ def run_mapping(
                         "unable to write to "
                         f"{pth.resolve().absolute()}")
 
+    tmp_result_dir = None
     try:
         if config['tmp_dir'] is not None:
             tmp_result_dir = tempfile.mkdtemp(
@@ -188,6 +190,10 @@ def run_mapping(
         raise
     finally:
         _clean_up(tmp_dir)
+        if tmp_result_dir is not None:
+            # also when the run failed; workers that outlived a failed
+            # sibling may still be writing there, hence ignore_errors
+            shutil.rmtree(tmp_result_dir, ignore_errors=True)
         log.info("CLEANING UP")
         if log_path is not None:
             log.write_log(log_path, cloud_safe=config['cloud_safe'])
